@@ -69,6 +69,9 @@ PIN0_SCRIPTS = {
 }
 
 
+LOOP_HEADERS = ["while True:", "while(True):", "while (True):", "while( True ):", "while True :"]
+
+
 def pin0_scenarios() -> list:
     return [{"custom": f"pin0-{k}", "src": "\n".join(HEADER + v[0]) + "\n", "pins": v[1], "buttons": v[2], "motors": v[3], "hasloop": True} for k, v in PIN0_SCRIPTS.items()]
 
@@ -131,7 +134,8 @@ def render(sc: dict) -> dict:
         L.append(op.format(n="dev"))
     L += other_ops
     if sc["hasloop"]:
-        L.append("while True:")
+        # the main loop's header in the spellings the parser documents (keyword against the parenthesis, blanks inside / before the colon)
+        L.append(LOOP_HEADERS[(len(L) + sc["nb"]) % len(LOOP_HEADERS)])
         if sc["place"] == "looptop":
             L.append("    " + decl.format(n="dev"))
         if sc.get("firstbind"):              # the first user statement of the body: binds a new name from a sensor reading
